@@ -12,7 +12,7 @@
                   keeps come from the documentation; the fitted-tilt bit, which the documentation
                   and the property leave open, is implementation-defined.
    The finite statements quantify over the finite inductive types themselves. *)
-From LV Require Import Model.PTypeSpec Proofs.PTypeP.
+From LV Require Import Model.PTypeSpec Proofs.PTypeP Proofs.PTypeMetaP.
 
 (* (a) all 15 cells of "Multiplication rules", for every content of the wavefront (no fields at all
    included) and whether or not the plane's aperture meets the light: the product has the
@@ -156,3 +156,135 @@ Example C08_nonvacuous :
      TRaises ETypeError WImage] /\
   run_program documented (St WNone Plain) prog = run_program observed (St WNone Plain) prog.
 Proof. repeat split. Qed.
+
+(* ============================================================================================
+   The code itself (Model/PTypeMeta.v: hand-written, branch by branch, from ptype.py, plane.py,
+   wavefront.py, propagate.py), as opposed to what it was observed to do.
+   ============================================================================================ *)
+
+(* the table in plane.py and the ladder in propagate._propagate_ptype ARE the documented tables *)
+Theorem C08_code_tables_are_documented_tables :
+  (forall w p, hand_table w p = doc_mul w p) /\
+  (forall m w, match propagate_ptype w with Ok t => Some t | Err _ => None end = doc_prop m w).
+Proof. exact (conj hand_table_is_doc propagate_ptype_is_doc). Qed.
+Print Assumptions C08_code_tables_are_documented_tables.
+
+(* Wavefront.ptype = x: accepted exactly when x denotes none, pupil or image (None, a PType or one
+   of the five names); anything else - an unknown name, tilt, transform - is a TypeError *)
+Theorem C08_wavefront_ptype_setter : forall a,
+  match set_wavefront_ptype a with
+  | Ok w => make_ptype a = Ok (ptype_of_wtype w)
+  | Err e => e = TypeError /\
+             (make_ptype a = Err TypeError \/ make_ptype a = Ok PTilt \/ make_ptype a = Ok PTransform)
+  end.
+Proof. exact set_wavefront_ptype_spec. Qed.
+Print Assumptions C08_wavefront_ptype_setter.
+
+(* Plane.multiply and its three overrides, against the whole product: a forbidden cell is TypeError
+   whatever the sampling; a permitted cell with two different pixel scales is ValueError; otherwise
+   the product has the table's type (image planes: image), the plane's pixel scale if it has one else
+   the wavefront's, the wavefront's wavelength, the plane's shape if it has one else the
+   wavefront's, the wavefront's focal length (a Pupil: its own), and one field per overlapping
+   (field, segment) pair, carrying the field's tilt objects (a tilt plane: one more) *)
+Theorem C08_multiply_whole_product : forall pl ov w,
+  match hand_table (w_ty w) (p_ty pl) with
+  | None => multiply pl ov w = MErr TypeError
+  | Some t =>
+      if mism_of (p_ps pl) (w_ps w) then multiply pl ov w = MErr ValueError
+      else exists r,
+        (multiply pl ov w = MOk r \/ (p_kind pl = KindPupil None /\ multiply pl ov w = MOkNoFocal r)) /\
+        w_ty r = (match p_kind pl with KindImage => WImage | _ => t end) /\
+        w_ps r = (match p_ps pl with Some x => Some x | None => w_ps w end) /\
+        w_wl r = w_wl w /\
+        w_shape r = (match p_shape pl with Some s => Some s | None => w_shape w end) /\
+        w_focal r = (match p_kind pl with KindPupil (Some f) => f | _ => w_focal w end) /\
+        w_fields r = map (fun f => match p_kind pl with KindTilt => f + 1 | _ => f end)
+                         (mul_fields 0 (w_fields w) (p_nseg pl) (p_ntilt pl) ov)
+  end.
+Proof. exact multiply_record. Qed.
+Print Assumptions C08_multiply_whole_product.
+
+(* ... and read on states (type, content), for wavefronts with any number of fields: the product of
+   the code's multiply is the hand-written transition function [hand_mul_outcome]
+   (clip: no field meets any segment; not clip: every field meets one) *)
+Theorem C08_multiply_abstracts : forall pl ov w clip,
+  p_ntilt pl = 0 -> uniform (w_fields w) = true -> nonneg (w_fields w) = true ->
+  ((clip = true -> forall i n, ov i n = false) /\
+   (clip = false -> forall i, (i < length (w_fields w))%nat ->
+                    exists n, (n < p_nseg pl)%nat /\ ov i n = true)) ->
+  abs_mul_out w (multiply pl ov w) =
+  hand_mul_outcome (mk_of (p_kind pl)) (p_ty pl) clip (mism_of (p_ps pl) (w_ps w)) (abs_state w).
+Proof. exact multiply_abstracts. Qed.
+Print Assumptions C08_multiply_abstracts.
+
+Theorem C08_multiply_keeps_invariant : forall pl ov w clip r,
+  p_ntilt pl = 0 -> uniform (w_fields w) = true -> nonneg (w_fields w) = true ->
+  ((clip = true -> forall i n, ov i n = false) /\
+   (clip = false -> forall i, (i < length (w_fields w))%nat ->
+                    exists n, (n < p_nseg pl)%nat /\ ov i n = true)) ->
+  (multiply pl ov w = MOk r \/ multiply pl ov w = MOkNoFocal r) ->
+  uniform (w_fields r) = true /\ nonneg (w_fields r) = true.
+Proof. exact multiply_keeps_invariant. Qed.
+Print Assumptions C08_multiply_keeps_invariant.
+
+(* propagate_dft against the whole result: type flipped, sampled at du/oversample, focal length and
+   wavelength kept, shape = (requested or the wavefront's) * oversample, no field carries tilt, no
+   more fields than before *)
+Theorem C08_propagate_dft_whole_result : forall du os shape keep w t dx,
+  propagate_ptype (w_ty w) = Ok t -> w_ps w = Some dx ->
+  exists r, propagate_dft du os shape keep w = Ok r /\
+    w_ty r = t /\ w_ps r = Some (fst du / qz os, snd du / qz os)%Q /\
+    w_focal r = w_focal w /\ w_wl r = w_wl w /\
+    w_shape r = (match (match shape with Some s => Some s | None => w_shape w end) with
+                 | Some (a, b) => Some (a * os, b * os) | None => None end) /\
+    has_tilt (w_fields r) = false /\ (length (w_fields r) <= length (w_fields w))%nat.
+Proof. exact propagate_dft_record. Qed.
+Print Assumptions C08_propagate_dft_whole_result.
+
+(* the order of the refusals: propagate_fft refuses fitted tilt before it looks at the type; an untyped
+   wavefront is refused with TypeError by both routines whatever its sampling, its focal length or the
+   requested shape *)
+Theorem C08_propagate_refusal_order : forall du os shape keep w,
+  (has_tilt (w_fields w) = true -> propagate_fft du os shape w = Err NotImplementedErr) /\
+  (has_tilt (w_fields w) = false -> w_ty w = WNone -> propagate_fft du os shape w = Err TypeError) /\
+  (w_ty w = WNone -> propagate_dft du os shape keep w = Err TypeError).
+Proof. exact propagate_refusal_order. Qed.
+Print Assumptions C08_propagate_refusal_order.
+
+(* read on states: both routines are the hand-written [hand_prop_outcome] (DFT: every field stays in
+   the window; FFT: sampled, finite focal length, the requested shape fits the FFT grid) *)
+Theorem C08_propagate_abstracts :
+  (forall du os shape keep w, w_ps w <> None -> (forall i, keep i = true) ->
+     abs_result w (propagate_dft du os shape keep w) = hand_prop_outcome Dft (abs_state w)) /\
+  (forall du os shape w dx z, w_ps w = Some dx -> w_focal w = Some z ->
+     (forall r c, shape = Some (r, c) ->
+        let '((nr, nc), _) := fft_shape dx du z (w_wl w) os in q_gt_z r nr os || q_gt_z c nc os = false) ->
+     abs_result w (propagate_fft du os shape w) = hand_prop_outcome Fft (abs_state w)).
+Proof. exact (conj propagate_dft_abstracts propagate_fft_abstracts). Qed.
+Print Assumptions C08_propagate_abstracts.
+
+(* the hand-written transition function - refusals, forced image type, tilt and emptiness included -
+   is the one observed on the real classes: Plane(ptype=p), every claimed public class with the
+   multiply() it runs and the ptype its instance carries, both propagation routines *)
+Theorem C08_hand_transition_is_observed :
+  (forall s p clip mism, hand_mul_outcome MKPlane p clip mism s = observed_mul s p clip mism) /\
+  (forall k po clip mism s mk, ckind k = Some mk -> op_claimed (MulClass k po clip mism) = true ->
+     hand_mul_outcome mk (inst_ptype k po) clip mism s = observed_class_mul k po clip mism s) /\
+  (forall m s, hand_prop_outcome m s = observed_prop m s).
+Proof. exact (conj hand_mul_is_observed (conj hand_class_is_observed hand_prop_is_observed)). Qed.
+Print Assumptions C08_hand_transition_is_observed.
+
+(* non-vacuity of the code model: a two-field pupil wavefront sampled at (1,2), times a two-segment
+   Tilt plane that meets both fields, then propagate_fft (refused: tilt), propagate_dft, propagate_fft *)
+Example C08_code_model_nonvacuous :
+  let w := {| w_ty := WPupil; w_ps := Some (1, 2)%Q; w_focal := Some 32%Q; w_wl := 1%Q;
+              w_shape := Some (4, 4); w_fields := [0; 0] |} in
+  let pl := {| p_ty := PTilt; p_ps := None; p_shape := None; p_nseg := 2; p_ntilt := 0; p_kind := KindTilt |} in
+  let ov := fun i n => Nat.eqb i n in
+  exists a b c,
+    multiply pl ov w = MOk a /\ w_fields a = [1; 1] /\ w_ty a = WPupil /\
+    propagate_fft (2, 4)%Q 2 None a = Err NotImplementedErr /\
+    propagate_dft (2, 4)%Q 2 (Some (4, 4)) (fun _ => true) a = Ok b /\ w_ty b = WImage /\ w_fields b = [0; 0] /\
+    w_shape b = Some (8, 8) /\
+    propagate_fft (2, 4)%Q 2 None b = Ok c /\ w_ty c = WPupil /\ w_shape c = Some (32, 8) /\ Qeq (w_wl c) 1.
+Proof. do 3 eexists. repeat split; vm_compute; reflexivity. Qed.
